@@ -187,8 +187,17 @@ def container_cases(thorough=False):
             out.append(('c', ci, 'del', 0, 'src', var))
             out.append(('c', ci, 'two', 0, 'src', var))       # two elements at once (one=False), every span
             out.append(('c', ci, 'xfer', 0, 'fst', var))      # a slice CUT from a twin tree is put into every position
+            if kind in HASHY:
+                out.append(('c', ci, 'twoml', 0, 'src', var))  # several elements on several lines, `#` inside string literals
     return out
 
+
+# multi-line puts whose lines hold a `#` inside a string and a more deeply nested node before it (what must not be taken
+# for a trailing comment when a line continuation is added)
+HASHY = {'target': ['a[i.j]', 'b["k#"]', 'c'], 'starexpr': ['f(i.j)', '"k#"', 'c'], 'expr': ['f(i.j)', '"k#"', 'c'], 'arglike': ['f(i.j)', 'k="k#"', '**c'],
+         'keyword': ['k1=f(i.j)', 'k2="k#"', 'k3=c'], 'withitem': ['f(i.j)', 'g("k#") as h', 'c'], 'kv': ['a[i.j]: 1', '"k#": 2', 'c: 3'],
+         'seqpattern': ['C(i.j)', '"k#"', 'c'], 'kvpattern': ['1: C(i.j)', '"k#": c'], 'attrpattern': ['C(i.j)', 'k="k#"'], 'alias_from': ['a', 'b as c', 'd'],
+         'name': ['a', 'b', 'c'], 'cmp': ['f(i.j)', '"k#"']}
 
 MODE_OF = {'expr': 'expr', 'target': 'expr', 'starexpr': 'expr_arglike', 'arg': None, 'keyword': 'keyword', 'arglike': None,
            'alias': 'alias', 'alias_from': 'alias', 'withitem': 'withitem', 'pattern': 'pattern', 'seqpattern': 'pattern',
@@ -254,6 +263,8 @@ def run_case(case):
         src, cls, field, kind = CONTAINERS[ci]
         src = _variant(src, var)
         elem = ELEMS[kind][ei]
+        if op == 'twoml':
+            elem = ',\n'.join(HASHY[kind])
         if op == 'two':
             a, b = ELEMS[kind][0], ELEMS[kind][1]
             if kind in ('cmp',):
@@ -301,7 +312,7 @@ def run_case(case):
             return res
         if op == 'ins':
             spans = [(i, i) for i in range(n + 1)]
-        elif op == 'two':
+        elif op in ('two', 'twoml'):
             spans = [(i, j) for i in range(n + 1) for j in range(i, n + 1)]
         elif op == 'rep':
             spans = [(i, j) for i in range(n + 1) for j in range(i + 1, n + 1)]
@@ -313,13 +324,13 @@ def run_case(case):
                 c = _find(root, cls)
                 rec = {'case': list(case), 'src': src, 'cls': cls, 'field': field, 'op': op, 'elem': elem if op != 'del' else None, 'start': i, 'stop': j}
                 try:
-                    code = None if op == 'del' else _code(elem, kind, form) if op != 'two' else elem
+                    code = None if op == 'del' else _code(elem, kind, form) if op not in ('two', 'twoml') else elem
                     if code is None and op != 'del':
                         continue
                     with FST.options(norm=True):
                         if op == 'del':
                             c.put_slice(None, i, j, field)
-                        elif op == 'two':
+                        elif op in ('two', 'twoml'):
                             c.put_slice(code, i, j, field, one=False)
                         else:
                             c.put_slice(code, i, j, field, one=True)
@@ -336,7 +347,7 @@ def run_case(case):
                 res.append(rec)
                 # second step on the edited container: delete the first element, then append the first element of the alphabet
                 c = _find(root, cls)
-                if c is None or op == 'two':
+                if c is None or op in ('two', 'twoml'):
                     continue
                 for op2 in ('del0', 'app'):
                     rec2 = dict(rec, op=op + '+' + op2, step1_after=rec['after'])
